@@ -175,6 +175,10 @@ class ArrInterp(ResultInterp):
             elif dt in NARROW and a.content == "labels":
                 out.casts.append(dt)
             return out
+        if name in ("sort", "fill", "put", "resize", "partition", "itemset", "setfield", "byteswap") and isinstance(a, AArr):
+            self.root.stores.append((node, a, "method:" + name, None, a.is_fresh()))
+            a.content = f"opaque:{name}()"
+            return None
         if name in ("sum",):
             return Reduction("sum", a)
         if name in ("max",):
@@ -250,6 +254,18 @@ class ArrInterp(ResultInterp):
         return super().ev_UnaryOp(e)
 
     # -- stores ---------------------------------------------------------------------------
+    def exec_stmt(self, st):
+        if isinstance(st, ast.AugAssign) and isinstance(st.target, ast.Name):
+            cur = self.env.get(st.target.id)
+            if isinstance(cur, AArr):
+                # x op= y on an ndarray is an in-place update of the same buffer
+                self._tick()
+                val = self.eval(st.value)
+                self.root.stores.append((st, cur, "augassign", val, cur.is_fresh()))
+                cur.content = f"opaque:augassign {type(st.op).__name__}"
+                return
+        return super().exec_stmt(st)
+
     def store_subscript_hook(self, base, idx, v, node):
         if isinstance(base, AArr):
             self.root.stores.append((node, base, idx, v, base.is_fresh()))
@@ -271,6 +287,12 @@ class ArrInterp(ResultInterp):
 
     # -- numpy functions ------------------------------------------------------------------
     def external_call(self, name, args, kwargs, node):
+        out_arr = kwargs.get("out")
+        if isinstance(out_arr, AArr):
+            self.root.stores.append((node, out_arr, "out=", None, out_arr.is_fresh()))
+        if name in ("numpy.copyto", "numpy.put", "numpy.place", "numpy.putmask") and args and isinstance(args[0], AArr):
+            self.root.stores.append((node, args[0], name, None, args[0].is_fresh()))
+            return None
         if name == "numpy.isin" and args and isinstance(args[0], AArr):
             key = args[1]
             if isinstance(key, LabelKeys):
